@@ -25,6 +25,7 @@ import (
 	"encoding/json"
 	"fmt"
 	"os"
+	"reflect"
 	"sort"
 	"strings"
 	"time"
@@ -260,6 +261,7 @@ func (w *c35World) request(typeID uint16) ua.Request {
 	case *ua.FindServersRequest:
 		r.EndpointURL = w.url
 	}
+	fillPointers(reflect.ValueOf(req), 0)
 	return req
 }
 
@@ -307,6 +309,12 @@ func c35Cell(j c35Job) (out c35Out) {
 		return
 	}
 	out.Service = typeName(req)
+	req.SetHeader(&ua.RequestHeader{AuthenticationToken: ua.NewTwoByteNodeID(0)})
+	if err := roundTrips(req); err != nil {
+		out.Kind = "not-sent"
+		out.Detail = "the crafted request does not survive gopcua's own encode/decode: " + err.Error()
+		return
+	}
 	_, isPublish := req.(*ua.PublishRequest)
 	tok, err := w.token(j.Token, isPublish)
 	if err != nil {
@@ -318,9 +326,6 @@ func c35Cell(j c35Job) (out c35Out) {
 		return
 	}
 	out.Before = w.state()
-	if isPublish && j.Token == "valid" {
-		// an honest Publish on a session is answered by that session's keep-alive
-	}
 	resp, err := w.att.send(req, tok)
 	switch e := err.(type) {
 	case nil:
